@@ -40,6 +40,7 @@ CLIENTS = [
     "from lib import helper as h, renderText as rt\nprint(h(1), rt(2))\n", "from lib import *\nprint(helper(1), renderText(2), maxVal)\n",
     "from lib import unusedHelper, anotherVar\n__all__ = ['unusedHelper', 'anotherVar']\nprint('ok')\n",
     "from lib import _\nprint(_('x'))\n", "from lib import join, J\nprint(join('a', 'b'), J.dumps(1))\n", "import lib\nprint(lib.make(3).stat())\n",
+    "import lib\nlib.init()\nlib.bump()\nlib.Conf().load()\nprint(lib.CACHE_dir, lib.hitCount, lib.lastLoaded)\n",
 ]
 
 
@@ -188,7 +189,7 @@ def preserved_oracle(ctx):
 
 def cli_oracle(ctx):
     s = Suite("cli-preserve", kind="oracle")
-    pairs = [(0, 0), (0, 1), (0, 2), (1, 4), (1, 5), (2, 6), (4, 7), (5, 8), (3, 9), (0, 10), (5, 11), (8, 12), (7, 13), (6, 14), (11, 15), (0, 16), (0, 17), (5, 18), (13, 19), (14, 20), (15, 21)]
+    pairs = [(0, 0), (0, 1), (0, 2), (1, 4), (1, 5), (2, 6), (4, 7), (5, 8), (3, 9), (0, 10), (5, 11), (8, 12), (7, 13), (6, 14), (11, 15), (0, 16), (0, 17), (5, 18), (13, 19), (14, 20), (15, 21), (16, 22)]
     for li, ci in pairs:
         d = Path(tempfile.mkdtemp(prefix="c08c_"))
         try:
@@ -207,7 +208,7 @@ def cli_oracle(ctx):
                                         "what": "after `pyrefact lib.py --preserve client.py` the client no longer behaves the same"})
         finally:
             shutil.rmtree(d, ignore_errors=True)
-    s.note = "21 (library, client) pairs in a temp dir: client output before vs after the CLI run `python -m pyrefact lib.py --preserve client.py`"
+    s.note = "22 (library, client) pairs in a temp dir: client output before vs after the CLI run `python -m pyrefact lib.py --preserve client.py`"
     return s
 
 
